@@ -7,7 +7,7 @@ from .lib import cz, cbool, coq_mismatches
 LEVEL = "proof"
 META = {
     "category": "proof",
-    "text": "Coq theorems over an executable model of starlark/int.go written once over the accessor interface of the Int union and instantiated with both representations (int32-in-address-space / struct union, and the all-big.Int fallback): every operator (+ - * // % & | ^ ~ << >> comparisons, Int64/AsInt32/Sign) equals the Z operation for all operands of any magnitude and returns a canonical value, the floored division law is derived from the code's truncated quotient/remainder plus correction, range()/len/index/membership/equality/iteration/enumerate as computed in Go int64/uint64 with explicit wrap equal the mathematical sequence or fail, float->int truncation, math.floor/ceil and int/float comparison are exact on every binary64 value (Coq SpecFloat datatype, the one underlying Flocq's binary_float), int->float conversion (Int.Float / finiteFloat, every path) returns for every integer of any magnitude the nearest binary64 value with ties to even, or the infinity exactly from the IEEE overflow threshold 2^1024-2^970 on (int_to_float_nearest_even: the model's mantissa-extraction / round-bit / sticky-bit rounding function is proved against an independent nearest-value specification over all of Z, which is also proved to determine the result uniquely), int(string, base) and printing round-trip over Z. The hand-written model is tied to /repo on every run: the Go harness runs the real operators and built-ins in both representations on the ordered product of the boundary pool of the property's quantifier plus random magnitudes to 2^200 and the float pool, checks every observation against an independent math/big oracle, and a Coq-sized sample is evaluated inside Coq against the model (correspondence) and the specification (oracle).",
+    "text": "Coq theorems over an executable model of starlark/int.go written once over the accessor interface of the Int union and instantiated with both representations (int32-in-address-space / struct union, and the all-big.Int fallback): every operator (+ - * // % & | ^ ~ << >> comparisons, Int64/AsInt32/Sign) equals the Z operation for all operands of any magnitude and returns a canonical value, the floored division law is derived from the code's truncated quotient/remainder plus correction, range()/len/index/membership/equality/iteration/enumerate as computed in Go int64/uint64 with explicit wrap equal the mathematical sequence or fail, float->int truncation, math.floor/ceil and int/float comparison are exact on every binary64 value (Coq SpecFloat datatype, the one underlying Flocq's binary_float), int->float conversion (Int.Float / finiteFloat, every path) returns for every integer of any magnitude the nearest binary64 value with ties to even, or the infinity exactly from the IEEE overflow threshold 2^1024-2^970 on (int_to_float_nearest_even: the model's mantissa-extraction / round-bit / sticky-bit rounding function is proved against an independent nearest-value specification over all of Z, which is also proved to determine the result uniquely), float % and // (eval.go, Float.Mod, floor; ModelFloatDiv.v) return the correctly rounded remainder of floored division (exact when no sign correction is needed; between 0 and the divisor) and the exact floor of the correctly rounded quotient for all finite operands, with SpecFloat's division and addition themselves proved correctly rounded against the independent nearest-value specification (float_floor_div_mod), int(string, base) and printing round-trip over Z. The hand-written model is tied to /repo on every run: the Go harness runs the real operators and built-ins in both representations on the ordered product of the boundary pool of the property's quantifier plus random magnitudes to 2^200 and the float pool, checks every observation against an independent math/big oracle, and a Coq-sized sample is evaluated inside Coq against the model (correspondence) and the specification (oracle).",
     "note": "Trusted: Coq kernel + vm_compute; the Go harness and its math/big oracle; math/big, strconv and hardware float conversion/arithmetic are oracles (modelled by Z / exact dyadic rationals / SpecFloat operations). Slicing a range whose arithmetic exceeds int64 and math.round(int) are recorded known findings.",
     "technique": "Coq proof over executable model + differential correspondence (vm_compute) + independent math/big and Spec.v oracles, both Int representations",
 }
@@ -15,6 +15,10 @@ META = {
 HEADER = ("From Coq Require Import ZArith Bool List.\n"
           "From SV Require Import Common.GoInt C10.Model C10.Spec C10.Cases.\n"
           "Open Scope Z_scope.\n")
+
+HEADER_FD = ("From Coq Require Import ZArith Bool List.\n"
+             "From SV Require Import Common.GoInt C10.Model C10.Spec C10.Cases C10.ModelFloatDiv C10.CasesFloatDiv.\n"
+             "Open Scope Z_scope.\n")
 
 BINOPS = {"+": "ADD", "-": "SUB", "*": "MUL", "//": "FLOORDIV", "%": "MOD", "&": "AND", "|": "OR", "^": "XOR", "<<": "LSH", ">>": "RSH"}
 CMPS = {"==": "EQL", "!=": "NEQ", "<": "LT", "<=": "LE", ">": "GT", ">=": "GE"}
@@ -212,6 +216,24 @@ def term(c, rep):
     return None
 
 
+def term_fd(c, rep):
+    """Coq `fdcase` term (CasesFloatDiv.v) for an int-float / float-int `//` or `%` observation, or None."""
+    k, op, a, r = c["k"], c["op"], c["a"], c["r"]
+    if k not in ("mixif", "mixfi") or op_of(op) not in ("//", "%") or r.startswith("panic"):
+        return None
+    o = cobs(r)
+    if o is None or not (o == "OErr" or o.startswith("(OFloat")):
+        return None
+    fb = cbool(rep == "fallback")
+    ismod = cbool(op_of(op) == "%")
+    if k == "mixif":
+        return "(CFdIF %s %s %s %s %s)" % (fb, ismod, cz(int(a[0])), cz(fbits(a[1])), o)
+    return "(CFdFI %s %s %s %s %s)" % (fb, ismod, cz(fbits(a[0])), cz(int(a[1])), o)
+
+
+CAP_FD_QUICK = 10       # per (representation, kind, operator): 80 cases
+CAP_FD_THOROUGH = 400   # 3200 cases
+
 CAPS_QUICK = {"enum": 60, "bin": 300, "cmp": 80, "un": 40, "cmpif": 150, "cmpfi": 150, "mixif": 20, "mixfi": 20, "parse": 50,
               "rng_in": 60, "rng_idx": 60, "rng_slice": 40, "rng_slice_len": 40}
 CAPS_THOROUGH = {"bin": 4000, "cmp": 1500, "cmpif": 2000, "cmpfi": 2000, "mixif": 600, "mixfi": 600, "parse": 1500,
@@ -279,6 +301,9 @@ def run(ctx):
     ok, log = ctx.coq_make(["C10/Cases.vo"])
     if not ok:
         ctx.broken("coq-build:C10/Cases.vo", log[-2000:])
+    ok, log = ctx.coq_make(["C10/CasesFloatDiv.vo"])
+    if not ok:
+        ctx.broken("coq-build:C10/CasesFloatDiv.vo", log[-2000:])
     ctx.log("proofs audited: %d/%d" % (ctx.discharged, ctx.obligations))
     hx = ctx.go_build("c10")
     ctx.log("harness built")
@@ -288,6 +313,7 @@ def run(ctx):
     evaluations = 0
     go_bad = 0
     pools = {}      # (rep, kind) -> list of (term, case)
+    pools_fd = {}   # (rep, kind:operator) -> list of (fdcase term, case): float // and %
     seen = set()
     for rep in ("posix", "fallback"):
         cmd = [hx, "-seed", str(ctx.seed), "-n", str(nrand), "-rep", rep] + (["-small"] if quick else [])
@@ -316,6 +342,10 @@ def run(ctx):
                     c["op"], c["a"], rep, r[:120], w[:120], " (or an error)" if c.get("e") else "")
                 ctx.finding(classify(c), what, c)
             # ---- candidates for Coq
+            tf = term_fd(c, rep)
+            if tf is not None and tf not in seen:
+                seen.add(tf)
+                pools_fd.setdefault((rep, "%s:%s" % (c["k"], op_of(c["op"]))), []).append((tf, c))
             t = term(c, rep)
             if t is None or t in seen:
                 continue
@@ -344,13 +374,37 @@ def run(ctx):
     if only_model:
         c = refs[only_model[0]]
         ctx.broken("correspondence:C10.Model", "model and implementation differ on %d case(s) where the specification is met, e.g. %s" % (len(only_model), c))
+    # ---- float // and % (eval.go Binary, Float.Mod, floor): ModelFloatDiv / CasesFloatDiv
+    terms_fd, refs_fd = [], []
+    for (rep, kind), lst in sorted(pools_fd.items()):
+        cap = CAP_FD_QUICK if quick else CAP_FD_THOROUGH
+        if len(lst) > cap:
+            step = len(lst) / float(cap)
+            lst = [lst[int(i * step)] for i in range(cap)]
+        per_kind["%s/%s" % (rep, kind)] = len(lst)
+        for t, c in lst:
+            terms_fd.append(t)
+            refs_fd.append(c)
+    ctx.log("evaluating %d distinct float //, %% cases in Coq (model and independent nearest-even oracle)" % len(terms_fd))
+    bad_model_fd, bad_spec_fd = coq_mismatches(ctx, "c10_fd_cases", HEADER_FD, terms_fd, ["model_ok_fd", "spec_ok_fd"], shard=1000)
+    for i in bad_spec_fd:
+        c = refs_fd[i]
+        ctx.finding(classify(c), "%s with operands %s (%s representation): implementation gave %s, which is not %s" % (
+            c["op"], c["a"], c["rep"], c["r"][:120],
+            "the correctly rounded remainder of floored division (or the required error)" if op_of(c["op"]) == "%"
+            else "the floor of the correctly rounded quotient (or the required error)"), c)
+    only_model_fd = [i for i in bad_model_fd if i not in set(bad_spec_fd)]
+    if only_model_fd:
+        c = refs_fd[only_model_fd[0]]
+        ctx.broken("correspondence:C10.ModelFloatDiv", "model and implementation differ on %d float //, %% case(s) where the specification is met, e.g. %s" % (len(only_model_fd), c))
     cov = {
-        "evaluations": evaluations, "distinct_nontrivial": len(terms),
+        "evaluations": evaluations, "distinct_nontrivial": len(terms) + len(terms_fd),
         "rule": "ordered product of the boundary pool {0, +-1, +-2, +-3, +-7, +-10, +-2^31(+-1), +-2^32(+-1), +-2^53(+-1), +-2^63(+-1), +-2^64(+-1), ...} x itself x 10 binary operators x 6 comparisons, unary operators, shifts by boundary counts, seeded random magnitudes up to 2^200, ints x float pool (subnormals, +-0, +-inf, NaN, halves, neighbours of 2^31/2^32/2^53/2^63/2^64) for comparisons / mixed arithmetic / conversions, for every magnitude band 2^31..2^52 and both signs an int n against n+-0.5, n+-0.25 and the adjacent floats, for bands 2^53..2^1022 the nearest float, its neighbours and the ints adjacent to them (all six operators, both operand orders), int(string, base) on printed and corrupted literals, int source literals of every radix spelling (decimal, 0x, 0X, 0o, 0O, 0b, 0B; sizes around 2^31..2^200) through the real scanner with negation / printing / int(text, 0) cross-checks, every callable member of starlark.Universe and lib/math.Module that accepts ints (enumerated at run time; abs, min, max, sorted, chr, bytes, ... and all math functions) on the boundary pool, range/enumerate/repetition on a machine-int boundary pool, enumerate(iterable, start) and the element-walking built-ins over every kind of iterable (list, tuple, dict, set, range, str.elems/elem_ords/codepoints/codepoint_ords, bytes.elems, a host Iterable without length, a host Sequence), each in both Int representations; evaluations = observations checked against the math/big oracle in the harness, distinct = distinct terms additionally evaluated in Coq against C10.Model and C10.Spec",
-        "samples": refs[:3] + refs[len(refs) // 2: len(refs) // 2 + 2],
+        "samples": refs[:3] + refs[len(refs) // 2: len(refs) // 2 + 2] + refs_fd[len(refs_fd) // 2: len(refs_fd) // 2 + 2],
         "distribution": dist,
         "coq_cases_per_kind": per_kind,
-        "go_oracle_mismatches": go_bad, "model_mismatches": len(bad_model), "spec_mismatches": len(bad_spec),
+        "go_oracle_mismatches": go_bad, "model_mismatches": len(bad_model) + len(bad_model_fd),
+        "spec_mismatches": len(bad_spec) + len(bad_spec_fd),
     }
     return ctx.finish(LEVEL, cov, assumptions=[
         "math/big (Int, Rat, Float), strconv and fmt integer formatting are oracles: modelled by Z operations / exact rationals",
